@@ -33,6 +33,7 @@ import (
 	"strings"
 	"sync"
 	"testing"
+	"time"
 
 	"src.elv.sh/pkg/cli"
 	"src.elv.sh/pkg/edit"
@@ -669,12 +670,22 @@ func c08CheckMap(m hashmap.Map, want []c08Entry, twins [2]any) (string, string) 
 	var ks []any
 	for it := m.Iterator(); it.HasElem(); it.Next() {
 		k, _ := it.Elem()
-		for _, o := range ks {
-			if c08Eq(o, k) {
-				return "two-eq-keys", fmt.Sprintf("holds two eq keys %s and %s", c08Repr(o), c08Repr(k))
+		if len(want) <= 40 {
+			// all pairs of keys
+			for _, o := range ks {
+				if c08Eq(o, k) {
+					return "two-eq-keys", fmt.Sprintf("holds two eq keys %s and %s", c08Repr(o), c08Repr(k))
+				}
 			}
+			ks = append(ks, k)
+		} else if c08Eq(k, twins[0]) || c08Eq(k, twins[1]) {
+			// big maps: the other keys are pairwise non-eq by construction
+			// (distinct ints / strings); only keys eq to the twins can repeat
+			if len(ks) > 0 {
+				return "two-eq-keys", fmt.Sprintf("holds two eq keys %s and %s", c08Repr(ks[0]), c08Repr(k))
+			}
+			ks = append(ks, k)
 		}
-		ks = append(ks, k)
 		n++
 	}
 	if n != len(want) {
@@ -801,6 +812,7 @@ func TestVerifC08(t *testing.T) {
 		maxNb := vk.Pick(c, 3, 4)
 		bulkN := vk.Pick(c, 2000, 2000)
 		bulkPairsAll := c.Thorough()
+		t0 := time.Now()
 		c08BuildStrTable()
 		pool := c08BuildPool()
 		vc := &c08Collector{}
@@ -895,6 +907,7 @@ func TestVerifC08(t *testing.T) {
 			return pairs[x].ib < pairs[y].ib
 		})
 		vc.flush(c)
+		fmt.Printf("INFO c08 layer pairs done: %d eq ordered pairs, %v\n", len(pairs), time.Since(t0))
 		var dce []string
 		for k := range diffCanonEq {
 			dce = append(dce, k)
@@ -975,6 +988,7 @@ func TestVerifC08(t *testing.T) {
 			mu.Unlock()
 		})
 		vc.flush(c)
+		fmt.Printf("INFO c08 layer nbhd done: %d cases, %v\n", nbhdCases, time.Since(t0))
 		c.Set("nbhd_cases", nbhdCases)
 
 		// ---- layer bulk -----------------------------------------------------
@@ -1080,6 +1094,7 @@ func TestVerifC08(t *testing.T) {
 			mu.Unlock()
 		})
 		vc.flush(c)
+		fmt.Printf("INFO c08 layer bulk done: %d cases, %v\n", bulkCases, time.Since(t0))
 		c.Set("bulk_pairs", len(bulkPairs))
 		c.Set("bulk_cases", bulkCases)
 
@@ -1156,6 +1171,7 @@ func TestVerifC08(t *testing.T) {
 			mu.Unlock()
 		})
 		vc.flush(c)
+		fmt.Printf("INFO c08 layer builtins done: %d cases, %v\n", builtinCases, time.Since(t0))
 		c.Set("builtin_cases", builtinCases)
 		for i, p := range pairs {
 			if p.ia != p.ib && i%37 == 0 {
